@@ -322,6 +322,9 @@ func nearThreshold(r *Rng, ts []float64) float64 {
 }
 
 func genArgs(kind string, r *Rng) []float64 {
+	if g, ok := genArgs5[kind]; ok {
+		return g(r)
+	}
 	ax := func() []float64 {
 		var a, x float64
 		switch r.Intn(6) {
@@ -598,6 +601,8 @@ func anchorOracle(fn string, h, k int, x float64) (ok bool, obs, ref float64, la
 		ref = math.Exp(ref)
 	case "BesselIDomain", "LogBesselIDomain":
 		return domainOracle(fn, h, x)
+	case "ZetaTiny", "ZetaSeries", "PolygammaSeries", "PolygammaRecur":
+		return round5Oracle(fn, k, x)
 	case "SinPi":
 		obs, ref, label = sp.SinPi(x), math.Sin(math.Pi*x), "sinpi"
 		return math.Abs(obs-ref) <= 1e-12, obs, ref, label
@@ -756,7 +761,7 @@ func huntAnchor(a Anchor) HuntEntry {
 				x = c
 			}
 		}
-		if a.Fam == "igamma" || a.Fam == "igamma-deriv" || a.Fam == "logerfc" {
+		if a.Fam == "igamma" || a.Fam == "igamma-deriv" || a.Fam == "logerfc" || a.Fam == "polygamma5" || a.Fam == "zeta5" {
 			// other families: the closed form exists only at the anchored argument itself
 			x = shrinkFloat(x, func(c float64) bool { return bad(h, c) })
 		}
